@@ -185,6 +185,29 @@ def build(run):
             "(declare-const p String)\n(assert (str.in_re p (re.+ (re.range \"a\" \"z\"))))\n(assert (str.in_re (str.++ \"xmlns:\" p) %s))" % rxsmt.search_lang(pats["NAMESPACE_DECL"]),
             get=("p",), witness=w_second, claim="NAMESPACE_DECL rewrites only the declaration of the prefix that is stripped from the elements")
 
+    # ---- c.3 how often each pre-parse regex is applied (the one piece of control flow the data-level lemmas depend on) ----------------
+    # NAMESPACE_DECL must rewrite ONE declaration (the prefix that is stripped from the elements); rewriting every prefixed declaration
+    # turns `xmlns:mml=".." xmlns:xlink=".."` into two default-namespace declarations.
+    calls = dict(re.findall(r"(MATHJAX_V2|MATHJAX_V3|NAMESPACE_DECL|PREFIX)\s*\.\s*(replace_all|replacen|replace)\s*\(", fn.text))
+    if set(calls) != {"MATHJAX_V2", "MATHJAX_V3", "NAMESPACE_DECL", "PREFIX"}:
+        raise slicer.SliceError("not every pre-parse regex is applied exactly once in set_mathml: %r" % calls)
+    import smt_run as _sr
+    # symbolic document head with two prefixed declarations p != q; count how many the call rewrites: 1 for replace, 2 for replace_all
+    n_rewritten = {"replace": 1, "replacen": 1, "replace_all": 2}[calls["NAMESPACE_DECL"]]
+    q = "(declare-const p String)(declare-const q String)\n(assert (str.in_re p (re.+ (re.range \"a\" \"z\"))))(assert (str.in_re q (re.+ (re.range \"a\" \"z\"))))(assert (distinct p q))\n" \
+        "(assert (str.in_re (str.++ \"xmlns:\" p) %s))(assert (str.in_re (str.++ \"xmlns:\" q) %s))\n(assert (> %d 1))" % (ns_core, ns_core, n_rewritten)
+
+    def w_two(model):
+        p, qq = model["p"], model["q"]
+        a = canon('<%s:math xmlns:%s="http://www.w3.org/1998/Math/MathML" xmlns:%s="http://www.w3.org/1999/xlink"><%s:mi>x</%s:mi></%s:math>' % (p, p, qq, p, p, p))
+        b = canon('<math xmlns="http://www.w3.org/1998/Math/MathML"><mi>x</mi></math>')
+        if a == b:
+            return None
+        return ("every-prefixed-declaration-rewritten", "a prefixed document that also declares a second prefix (%s, %s) is not handled like its default-namespace spelling: %s" % (p, qq, a[1][:120]),
+                {"prefixed": a, "default": b})
+    run.smt("Z-C17-c.only_the_stripped_prefix_is_redeclared", q, get=("p", "q"), witness=w_two,
+            claim="NAMESPACE_DECL rewrites exactly one declaration per document (method %s): two prefixed declarations do not both become the default namespace" % calls["NAMESPACE_DECL"])
+
 
 def _ite_chain(pairs):
     out = ['"\\u{fffe}"']
